@@ -45,7 +45,7 @@ Proof.
 Qed.
 
 (* the written expressions the parser accepts are exactly those without a cell
-   complement below #( ) and without a complement right after a colon *)
+   complement below #( ) *)
 Theorem accepted_written_iff e ws trail :
   wf_written ws = true -> tokens_written ws = toks 0 e ->
   ((exists a, get_ast (render ws trail) = Ok a) <-> accepted e = true).
@@ -53,18 +53,9 @@ Proof. intros Hw Ht. rewrite (get_ast_render_psem e ws trail Hw Ht). apply psem_
 
 Theorem nested_rejected_written e ws trail :
   wf_written ws = true -> tokens_written ws = toks 0 e ->
-  no_colon_hash e = true -> no_cell_under_not e = false ->
+  no_cell_under_not e = false ->
   get_ast (render ws trail) = Err EAttribute.
 Proof.
-  intros Hw Ht Hg Hc. unfold get_ast. rewrite (tokens_of_render ws trail Hw), Ht.
+  intros Hw Ht Hc. unfold get_ast. rewrite (tokens_of_render ws trail Hw), Ht.
   now apply nested_rejected.
-Qed.
-
-Theorem colon_hash_rejected_written e ws trail :
-  wf_written ws = true -> tokens_written ws = toks 0 e ->
-  no_cell_under_not e = true -> no_colon_hash e = false ->
-  get_ast (render ws trail) = Err EParse.
-Proof.
-  intros Hw Ht Hc Hg. unfold get_ast. rewrite (tokens_of_render ws trail Hw), Ht.
-  now apply colon_hash_rejected.
 Qed.
